@@ -4,6 +4,7 @@
 pub mod common;
 pub mod mapgen;
 pub mod rng;
+pub mod viewsink;
 
 #[cfg(any(feature = "p12" , feature = "p13"))]
 pub mod genstate;
